@@ -248,6 +248,32 @@ pub fn shard_torn(def: &E2Def, tier: &str, seed: u64, shard: u32, programs: u32)
             }
         }
     }
+    // threaded supplement: batches committed while workers flush and the journal rotates, then a reopen
+    if out.failure.is_none() {
+        let n = if thorough { programs / 2 + 8 } else { programs * 2 + 4 };
+        for i in 0..n {
+            let s = case_hash(&(seed, shard, i, 0xc03u32));
+            let rp = crate::e3::reopen_params(s);
+            phase(&format!("C03 threaded reopen {}", serde_json::to_string(&rp).unwrap_or_default()));
+            match crate::e3::threaded_c03(&base.join("thr"), &rp) {
+                Ok((nt, fl)) => {
+                    out.evaluations += 1;
+                    *stats.entry("threaded_reopen_histories".into()).or_insert(0) += 1;
+                    *stats.entry("threaded_reopen_tables_at_drop".into()).or_insert(0) += fl;
+                    if nt {
+                        out.nt_hashes.push(case_hash(&(s, 0xc03u32)));
+                    }
+                }
+                Err(e) if e.starts_with("INCONCLUSIVE") => {
+                    *stats.entry("threaded_reopen_inconclusive".into()).or_insert(0) += 1;
+                }
+                Err(e) => {
+                    out.failure = Some(FailureOut { case: json!({"property": "C03", "threaded_reopen": rp, "failure": {"msg": e}}), msg: e, step: 0, original_msg: String::new() });
+                    break;
+                }
+            }
+        }
+    }
     out.stats = stats;
     let _ = std::fs::remove_dir_all(&base);
     out
